@@ -51,6 +51,20 @@ def frun (f : Nat → Nat → Nat → Nat → FSt → R FSt) : List Tok → Opti
   | _ => none
 
 def handle : Handler
+  | "alias_sqrt", [.num root, .num op, .num _, .num _, .num v0, .num v1, .num v2, .num v3] => do
+    let root ← idx root; let op ← idx op
+    let s0 := ofInts [v0, v1, v2, v3]
+    answer s0 (· == root) (mpz_sqrt root op s0)
+  | "alias_lcm", [.num r, .num u, .num v, .num _, .num v0, .num v1, .num v2, .num v3] => do
+    let r ← idx r; let u ← idx u; let v ← idx v
+    let s0 := ofInts [v0, v1, v2, v3]
+    answer s0 (fun _ => false) (mpz_lcm r u v s0)
+  | "alias_invert", [.num r, .num x, .num n, .num _, .num v0, .num v1, .num v2, .num v3] => do
+    let r ← idx r; let x ← idx x; let n ← idx n
+    let s0 := ofInts [v0, v1, v2, v3]
+    match mpz_invert r x n s0 with
+    | .error e => some [.err e]
+    | .ok (ret, s) => (answer s0 (fun _ => false) (.ok s)).map fun l => .num (if ret then 1 else 0) :: l
   | "alias_fdiv", args => frun (fun r u v _ => mpf_div r u v) args
   | "alias_fmul", args => frun (fun r u v _ => mpf_mul r u v) args
   | "alias_fsqrt", args => frun (fun r u _ _ => mpf_sqrt r u) args
